@@ -66,14 +66,12 @@ func relLaws(r jsonapi.Rel) string {
 }
 
 // canonicalDomain: the "same result for a relationship and its inverse" law is
-// stated for two-way relationships (both ends named, types named) that are not
-// their own inverse.
+// stated for two-way relationships (both ends named, types named). A
+// relationship with the same type and name on both ends is included: if its
+// two cardinalities agree it is its own inverse and the law is trivial, if
+// they differ the inverse is another value and must normalise to the same one.
 func canonicalDomain(r jsonapi.Rel) bool {
-	if r.FromName == "" || r.ToName == "" || r.FromType == "" || r.ToType == "" {
-		return false
-	}
-
-	return !(r.FromType == r.ToType && r.FromName == r.ToName)
+	return r.FromName != "" && r.ToName != "" && r.FromType != "" && r.ToType != ""
 }
 
 func collides(r jsonapi.Rel) bool {
@@ -259,6 +257,74 @@ func TestC16Schema(t *testing.T) {
 			t.Fatalf("C16 violated: Rels() depends on insertion order: %s vs %s on %s", relsString(rels1), relsString(rels2), ss)
 		}
 
+		// A third way of building the same schema: the types first, then one
+		// relationship or pair at a time through the schema's editing calls,
+		// with a Rels() query after every edit. If an edit is refused the
+		// variant is dropped (editing is C14's subject).
+		keys := gen.SortedKeys(groups)
+		if len(keys) > 1 {
+			keys = rapid.Permutation(keys).Draw(t, "editorder")
+		}
+
+		s3 := &jsonapi.Schema{}
+		built := true
+
+		if p := oracle.Try(func() {
+			for _, ts := range perm {
+				typ := ss.Schema.GetType(ts.Name)
+				typ.Rels = map[string]jsonapi.Rel{}
+
+				if s3.AddType(typ) != nil {
+					built = false
+					return
+				}
+			}
+
+			for _, k := range keys {
+				g := groups[k]
+
+				switch {
+				case len(g) == 2 && g[0].Invert() == g[1]:
+					if s3.AddTwoWayRel(g[rapid.IntRange(0, 1).Draw(t, "side")]) != nil {
+						built = false
+					}
+				case len(g) == 1 && g[0].ToName != "" && g[0].Invert() == g[0]:
+					// its own inverse
+					if s3.AddTwoWayRel(g[0]) != nil {
+						built = false
+					}
+				default:
+					for _, m := range g {
+						if s3.AddRel(m.FromType, m) != nil {
+							built = false
+						}
+					}
+				}
+
+				if !built {
+					return
+				}
+
+				s3.Rels()
+			}
+		}); p != nil {
+			t.Fatalf("C16 violated: building the schema edit by edit %s on %s", p, ss)
+		}
+
+		editBuilt := built && libSnapshot(s3) == libSnapshot(ss2.Schema)
+
+		if editBuilt {
+			var rels3 []jsonapi.Rel
+
+			if p := oracle.Try(func() { rels3 = s3.Rels() }); p != nil {
+				t.Fatalf("C16 violated: Rels() %s on %s (built edit by edit)", p, ss)
+			}
+
+			if a, b := relsKey(rels1, groups), relsKey(rels3, groups); a != b {
+				t.Fatalf("C16 violated: Rels() depends on how the schema was built: %s, but %s when the relationships are added one by one (order %q) on %s", relsString(rels1), relsString(rels3), keys, ss)
+			}
+		}
+
 		pairs := 0
 		collision := false
 
@@ -275,7 +341,7 @@ func TestC16Schema(t *testing.T) {
 		}
 
 		r.Case(ss.String(), pairs >= 2 || (pairs >= 1 && collision),
-			fmt.Sprintf("pairs=%d", min(pairs, 4)), fmt.Sprintf("types=%d", len(ss.Types)))
+			fmt.Sprintf("pairs=%d", min(pairs, 4)), fmt.Sprintf("types=%d", len(ss.Types)), fmt.Sprintf("also-built-edit-by-edit=%v", editBuilt))
 	}))
 }
 
